@@ -4,6 +4,7 @@ import SfntV.Model.NamesTable
 import SfntV.Model.NamesLocale
 import SfntV.Model.NamesChoose
 import SfntV.Spec.Names
+import SfntV.Generated.Cmapx
 
 namespace SfntV.Drive.Names
 open SfntV SfntV.Names
@@ -291,6 +292,19 @@ def prefixes : List String := ["names."]
     match getField fs "rl", getField fs "sc" with
     | some rl, some sc => rl ++ "|" ++ sc
     | _, _ => "bad-case"
+  else if op == "names.maconeb" then
+    -- prediction over the regenerated full table `Gen.macRomanTable` (C09's extractor; equal to this
+    -- property's table by C14_macroman_decodeone): DecodeOne(b) = Decode([b]) and Encode inverts it
+    match (getField fs "b").bind String.toNat? with
+    | some b =>
+      let r := Gen.macRomanTable.getD b 0
+      s!"{r};{r};" ++ natsHex [b]
+    | none => "bad-case"
+  else if op == "names.maconer" then
+    -- every rune of the repertoire: Encode then DecodeOne gives it back
+    match (getField fs "r").bind String.toNat? with
+    | some r => s!"{macEncodeOne r};{r}"
+    | none => "bad-case"
   else "bad-op"
 
 def specStd : Array (List Nat) := Spec.standardTable.toArray
